@@ -297,16 +297,13 @@ func Tokenize(source string) ([]Token, error) {
 			}
 			token = newToken(str, STRING_LITERAL, ogRow, ogColumn)
 			i = end + 1
-		} else if matches := regexp.MustCompile(`(?s)^\/\*(.*)\*\/`).FindStringSubmatch(source[i:]); matches != nil {
-			// Multiline comment.
+		} else if matches := regexp.MustCompile(`(?s)^\/\*(.*?)\*\/`).FindStringSubmatch(source[i:]); matches != nil {
+			// Multiline comment (ends at the first terminator).
 			token = newToken(matches[1], COMMENT, ogRow, ogColumn)
-			match := matches[0]
-			lines := strings.Split(match, "\n")
-			lastLinesIndex := len(lines) - 1
-			row += lastLinesIndex
-			ogColumn = startIndex
-			i += len(match)
-			ogI = i - len(lines[lastLinesIndex])
+			i += len(matches[0])
+		} else if strings.HasPrefix(source[i:], "/*") {
+			err = fmt.Errorf("comment at row %d, column %d has not been terminated", ogRow, ogColumn)
+			break
 		} else if matches := regexp.MustCompile(`^\/\/(.*)`).FindStringSubmatch(source[i:]); matches != nil {
 			// Single line comment.
 			token = newToken(matches[1], COMMENT, ogRow, ogColumn)
@@ -358,11 +355,14 @@ func Tokenize(source string) ([]Token, error) {
 			}
 		}
 
-		if token.tokenType == NEWLINE {
-			row++
-			column = startIndex
+		// Update the position. Tokens (newlines, comments, raw strings) might span several lines.
+		consumed := source[ogI:i]
+
+		if newlines := strings.Count(consumed, "\n"); newlines > 0 {
+			row += newlines
+			column = startIndex + len(consumed) - strings.LastIndex(consumed, "\n") - 1
 		} else {
-			column = ogColumn + (i - ogI)
+			column = ogColumn + len(consumed)
 		}
 
 		// If still no token has been found, exit with error.
